@@ -276,6 +276,9 @@ pub fn c01(opts: &Opts) -> Report {
     if want(opts, "timer") {
         run_family(&mut rep, opts, &FamilyRun { prop: "C01", part: "timer", cases: opts.n(if cfg!(miri) { 3 } else { 250 }, 6000), gen: &|s| gen::gen_timer(s, &to), set: ExecSet::Full, pools: &[TIME_SITES, EXECUTOR_SITES], nontrivial: &|s, _| s.time_moves > 0 && s.handlers > 0, predict: true, also: &[] });
     }
+    if want(opts, "bulk") {
+        crate::props::storm::bulk(&mut rep, opts, "C01");
+    }
     if want(opts, "threads") {
         // Scheduler handles used from other threads while the simulation steps
         // (the workload of C08): time must never decrease and no accepted
@@ -370,6 +373,9 @@ pub fn c05(opts: &Opts) -> Report {
 
 pub fn c07(opts: &Opts) -> Report {
     let mut rep = Report::new("C07");
+    if want(opts, "bulk") {
+        crate::props::storm::bulk(&mut rep, opts, "C07");
+    }
     let mut to = timer_opts(opts);
     to.lattice = vec![1, 2, 1000];
     if want(opts, "timer") {
